@@ -187,6 +187,8 @@ func RunMeterSims(t *testing.T, api MeterAPI, scripts []MeterScript, scheds [][]
 		}
 	}()
 	synctest.Test(t, func(t *testing.T) {
+		stopYield := yieldpt.Start() // the scheduler's own yields stay on the local run queue
+		defer stopYield()
 		for i := range scripts {
 			r := runMeterSimInBubble(api, scripts[i], scheds[i])
 			results = append(results, r)
@@ -212,7 +214,6 @@ func runMeterSimInBubble(api MeterAPI, script MeterScript, sched []int) MeterRun
 		if !m.expectPark.Load() || yieldpt.Goid() != m.workerGoid.Load() {
 			return
 		}
-		m.expectPark.Store(false)
 		m.workerPark <- struct{}{}
 		<-m.workerResume
 	}
@@ -309,58 +310,33 @@ func runMeterSimInBubble(api MeterAPI, script MeterScript, sched []int) MeterRun
 		// twice (one P: the worker has then either finished or blocked) the
 		// scheduler lands the frames in flight and waits for the worker.
 		step := func(op MeterOp) {
-			if op.Op == "start" || op.Op == "done" {
+			parkable := op.Op == "start" || op.Op == "done"
+			if parkable {
 				m.expectPark.Store(true)
 			}
+			defer m.expectPark.Store(false)
 			baton <- op
-			if op.Op == "start" || op.Op == "done" {
-				// the worker stops once inside the operation, at the meter's
-				// Lock (no lock held yet): a ticker parked between its tick and
-				// the lock may go first
-				select {
-				case <-stepDone: // no yield point compiled in
-					m.expectPark.Store(false)
-					return
-				case <-m.workerPark:
-					m.mu.Lock()
-					np, nf := len(m.parked), len(m.inflight)
-					m.logEv("worker", "parked-inside-"+op.Op, np)
-					m.midOp++
-					m.mu.Unlock()
-					for np > 0 && nf == 0 && choose(2) == 1 {
-						m.mu.Lock()
-						k := choose(len(m.parked))
-						p := m.parked[k]
-						m.parked = append(m.parked[:k], m.parked[k+1:]...)
-						m.logEv("sched", "release-inside-"+op.Op, p.id)
-						m.mu.Unlock()
-						p.ch <- true
-						synctest.Wait()
-						m.mu.Lock()
-						np, nf = len(m.parked), len(m.inflight)
-						m.mu.Unlock()
-					}
-					m.workerResume <- struct{}{}
-				}
+			if op.Op == "sleep" {
+				<-stepDone
+				return
 			}
-			if op.Op != "sleep" {
-				for i := 0; i < 3; i++ {
+			for {
+				// Has the worker finished, or parked inside the operation at the
+				// meter's Lock (no lock held yet)? After a few yields it has done
+				// one of the two, or it is blocked on the lock behind a frame in
+				// flight.
+				st := 0 // 1 finished, 2 parked
+				for i := 0; i < 4 && st == 0; i++ {
 					select {
 					case <-stepDone:
-						return
+						st = 1
+					case <-m.workerPark:
+						st = 2
 					default:
+						yieldpt.Yield()
 					}
-					runtime.Gosched()
 				}
-				select {
-				case <-stepDone:
-					return
-				default:
-				}
-				m.mu.Lock()
-				n := len(m.inflight)
-				m.mu.Unlock()
-				if n > 0 {
+				if st == 0 {
 					// cannot use land(): synctest.Wait would wait for the worker, which is waiting for the lock
 					for {
 						m.mu.Lock()
@@ -374,9 +350,49 @@ func runMeterSimInBubble(api MeterAPI, script MeterScript, sched []int) MeterRun
 						m.mu.Unlock()
 						ch <- true
 					}
+					select {
+					case <-stepDone:
+						st = 1
+					case <-m.workerPark:
+						st = 2
+					}
 				}
+				if st == 1 {
+					return
+				}
+				// parked inside Start() / Done(): parked tickers may go first, and
+				// the clock may move (a tick then falls into the window)
+				m.mu.Lock()
+				m.logEv("worker", "parked-inside-"+op.Op, len(m.parked))
+				m.midOp++
+				m.mu.Unlock()
+				for a := 0; a < 4; a++ {
+					k := choose(3)
+					if k == 0 {
+						break
+					}
+					m.mu.Lock()
+					np, nf := len(m.parked), len(m.inflight)
+					m.mu.Unlock()
+					if k == 1 && np > 0 && nf == 0 {
+						m.mu.Lock()
+						j := choose(len(m.parked))
+						p := m.parked[j]
+						m.parked = append(m.parked[:j], m.parked[j+1:]...)
+						m.logEv("sched", "release-inside-"+op.Op, p.id)
+						m.mu.Unlock()
+						p.ch <- true
+						synctest.Wait()
+					} else if k == 2 && nf == 0 {
+						d := []time.Duration{time.Millisecond, period / 2, period, period + time.Millisecond}[choose(4)]
+						m.mu.Lock()
+						m.logEv("sched", "advance-inside-"+op.Op, int(d/time.Millisecond))
+						m.mu.Unlock()
+						time.Sleep(d)
+					}
+				}
+				m.workerResume <- struct{}{}
 			}
-			<-stepDone
 		}
 		ops := script.Ops
 		oi := 0
